@@ -172,4 +172,25 @@ theorem foldl_setInsert (l : List Entry) : ∀ (acc : List Hash),
     unfold setInsert
     by_cases h : acc.contains e.hash = true <;> simp only [h, if_true, if_false, Bool.false_eq_true]
 
+/-- a search loop with an early `return true` (translated as a fold that keeps the first hit) and `false` after it -/
+theorem search_true_fold {α : Type} (p : α → Bool) : ∀ (cs : List α) (hit : Option Bool),
+    cs.foldl (fun hit c => hit.or (if p c = true then some true else none)) hit =
+      hit.or (if cs.any p = true then some true else none) := by
+  intro cs
+  induction cs with
+  | nil => intro hit; cases hit <;> rfl
+  | cons c t ih =>
+    intro hit
+    rw [List.foldl_cons, ih]
+    cases hit with
+    | some r => rfl
+    | none =>
+      simp only [Option.none_or, List.any_cons]
+      by_cases h1 : p c = true <;> by_cases h2 : t.any p = true <;> simp [h1, h2]
+
+theorem search_true {α : Type} (p : α → Bool) (cs : List α) :
+    (cs.foldl (fun hit c => hit.or (if p c = true then some true else none)) none).getD false = cs.any p := by
+  rw [search_true_fold p cs none]
+  by_cases h : cs.any p = true <;> simp [h]
+
 end Model.SlicesGen
